@@ -114,6 +114,12 @@ func (l *loopCtx) loopVars(ls *loopState, phiVal func(p *ssa.Phi) Value) []Value
 func (l *loopCtx) evalInvariants(ls *loopState, st *State, vars []Value) []*Term {
 	var out []*Term
 	for _, cl := range ls.spec.Invariants {
+		if l.x.dropAux && cl.Label == "aux" {
+			// an auxiliary invariant (about the loop's temporaries) that no longer
+			// holds for the loop as written now: neither assumed nor proved
+			out = append(out, l.x.b.True())
+			continue
+		}
 		out = append(out, l.x.evalPred(cl.Fn, l.args, l.entry, st, vars, nil).(*Term))
 	}
 	return out
@@ -272,6 +278,15 @@ func (x *Exec) rangeNext(iter Value, st *State, pc *Term) Value {
 	nilm := x.mapNil(m)
 	k := b.Fresh("rangekey", ks)
 	okv := b.Fresh("rangeok", BoolS())
+	// the chosen key is a cell of any counterexample (of this map and of every
+	// other map of the same key type the model has to fix)
+	for _, o := range st.h {
+		if mv, ok := o.(*StructV); ok && len(mv.F) == 2 {
+			if pt, ok := mv.F[0].(*Term); ok && pt.S.String() == present.S.String() {
+				x.noteSelect(pt, k)
+			}
+		}
+	}
 	cand := func(key *Term) *Term {
 		return b.AndN(b.Not(nilm), b.Select(present, key), b.Not(b.Select(it.Visited, key)))
 	}
